@@ -36,7 +36,7 @@ CONF = {
     "C11U": dict(level="exploration", workers=16, quick=dict(cases=1500, size=60), thorough=dict(cases=20000, size=100)),
     "C11": dict(also=dict(quick=[("C16", 300), ("C11U", 1500)], thorough=[("C16", 3000), ("C11U", 20000)]), level="exploration", workers=16, quick=dict(cases=400, size=60), thorough=dict(cases=6000, size=100),
                 fuzz=[dict(name="fz_session", quick_runs=1200, thorough_runs=60000, max_len=256, jobs=6)]),
-    "C12": dict(level="exploration", workers=16, quick=dict(cases=1200, size=70), thorough=dict(cases=48000, size=100)),
+    "C12": dict(also=dict(quick=[("C04", 1500)], thorough=[("C04", 20000)]), level="exploration", workers=16, quick=dict(cases=1200, size=70), thorough=dict(cases=48000, size=100)),
     "C10": dict(also=dict(quick=[("C02", 1200)], thorough=[("C02", 20000)]), level="exploration", workers=16, quick=dict(cases=2500, size=60), thorough=dict(cases=45000, size=100)),
     "C14": dict(level="exploration", workers=16, quick=dict(cases=700, size=60), thorough=dict(cases=32000, size=100)),
     "C13": dict(level="exploration", workers=16, quick=dict(cases=2000, size=60), thorough=dict(cases=48000, size=100)),
